@@ -431,7 +431,10 @@ def q_preempt(registered):
               "thread clause: bounded to two interfaces and ONE pre-emption (B's call atomic inside A's call) at accesses to file-scope shared objects of the core; finer interleavings are outside the claim",
               "known finding (not repaired): first frames racing lose one registration in lltd_state_for_iface (no lock/atomic in the port API)"])
 def c17(tier, seed):
-    return q_rel(3) + [q_preempt(True), q_preempt(False)]
+    il = [blkq("blk_interleave_emit_at%d" % k, "h_interleave", replace={}, K=1, unwind=6, no_std_checks=True, defines=["PREEMPT_AT=%d" % k, "V_PREEMPT"],
+               bounds={"threads": "B's whole Emit runs inside the %d-th platform call of A's Emit (allocation, address getter, pause, transmit, transmit, release; one query per call index 0..6)" % k, "Emit": "one descriptor each, kinds {0,1}, any addresses/pause"},
+               desc="second thread model: pre-emption at platform calls; both interfaces process an Emit; each must transmit exactly its own Probe/Train and ACK") for k in range(7)]
+    return q_rel(3) + [q_preempt(True), q_preempt(False)] + il
 
 
 def c18_block_queries(K=2):
@@ -475,7 +478,7 @@ def q_probe_cap(K=2):
               "histories of any length by induction over the record invariant (count = list length <= cap)"])
 def c19(tier, seed):
     qs = c01_block_queries(576, hello_pairs=((33, 31),))
-    qs += [q_probe_cap(), q_probe(tier, 3), q_query(tier, 3), q_reset(tier, 3), q_other(tier, 2), q_emit_send(), q_emit_full(3), q_qltlv("alltypes_576"), q_discover(32, 32)]
+    qs += [q_probe_cap(), q_probe(tier, 3), q_query(tier, 3), q_query(tier, 5, frame_n=100, name="query_smallmtu"), q_reset(tier, 3), q_other(tier, 2), q_emit_send(), q_emit_full(3), q_qltlv("alltypes_576"), q_discover(32, 32)]
     return qs
 
 
